@@ -651,6 +651,14 @@ def check_C16(tier, seed, t0, only=None):
     cov = {'evaluations': st['tapes'], 'distinct_nontrivial': st['distinct_nontrivial'], 'rule': C16_RULE, 'samples': r['samples'] or [{'note': 'no sample'}],
            'transcripts_compared': st['transcripts'], 'ops_replayed_per_build': st['ops'], 'builds': r['builds'], 'groups': r['groups'],
            'absence_table': r['absence_table'], 'exhaustive': False}
+    if only is not None:
+        # replay of one tape: differential verdict only (no evidence, no exploration minimum)
+        for path, msg in viol:
+            print('VIOLATION property=C16 replay=%s' % path)
+            print('  ' + msg)
+        if not viol:
+            print('VF-REPLAY pass prop=C16 config=%s (%d builds agree)' % (only[0], len(r['builds'])))
+        return 1 if viol else 0
     part = Part('differential_transcripts', cov, viol, r['wall'])
     parts = [part]
     if only is None:
@@ -722,6 +730,7 @@ def all_units():
 
 def replay(prop, path):
     """./check Cxx --replay file: rebuild what is needed, run the case once, exit 1 if it still fails"""
+    D.NO_EVIDENCE = True
     lines = open(path).read().splitlines()
     kv = dict(x.split('=', 1) for x in lines[0].split('#')[0].split() if '=' in x) if lines else {}
     cfg = kv.get('config', '')
